@@ -39,11 +39,16 @@ enum Op {
     Flush,
     Forget,
     DropJoin,
+    /// shut / open the flush gate: while shut every `stream.flush()` blocks
+    Fclose,
+    Fopen,
 }
 
 #[derive(Clone, Debug, PartialEq)]
 struct Case {
     short: bool,
+    /// `shutdown_timeout` of 1 ns: the deadline test of the final drain (every 32 entries) always fires
+    tiny: bool,
     ops: Vec<Op>,
 }
 
@@ -58,6 +63,8 @@ impl Op {
             Op::Flush => "flush".into(),
             Op::Forget => "forget".into(),
             Op::DropJoin => "dropjoin".into(),
+            Op::Fclose => "fclose".into(),
+            Op::Fopen => "fopen".into(),
         }
     }
     fn dec(s: &str) -> Option<Op> {
@@ -71,6 +78,8 @@ impl Op {
             ["flush"] => Op::Flush,
             ["forget"] => Op::Forget,
             ["dropjoin"] => Op::DropJoin,
+            ["fclose"] => Op::Fclose,
+            ["fopen"] => Op::Fopen,
             _ => return None,
         })
     }
@@ -84,6 +93,8 @@ impl Op {
             Op::Flush => "flush",
             Op::Forget => "forget",
             Op::DropJoin => "dropjoin",
+            Op::Fclose => "fclose",
+            Op::Fopen => "fopen",
         }
     }
 }
@@ -91,8 +102,9 @@ impl Op {
 impl Case {
     fn encode(&self) -> String {
         format!(
-            "script {} {}",
+            "script {}{} {}",
             if self.short { 1 } else { 0 },
+            if self.tiny { "t" } else { "" },
             self.ops.iter().map(|o| o.enc()).collect::<Vec<_>>().join(" ")
         )
     }
@@ -101,13 +113,15 @@ impl Case {
         if it.next()? != "script" {
             return None;
         }
-        let short = match it.next()? {
-            "0" => false,
-            "1" => true,
+        let (short, tiny) = match it.next()? {
+            "0" => (false, false),
+            "1" => (true, false),
+            "0t" => (false, true),
+            "1t" => (true, true),
             _ => return None,
         };
         let ops: Option<Vec<Op>> = it.map(Op::dec).collect();
-        let c = Case { short, ops: ops? };
+        let c = Case { short, tiny, ops: ops? };
         if c.valid() { Some(c) } else { None }
     }
     /// well-formed: starts with `new` (cap ≥ 1), handles referenced are live, a live handle exists for
@@ -118,13 +132,9 @@ impl Case {
         if *cap == 0 {
             return false;
         }
-        // with the short flush interval a drain that pops 32 entries consults the clock (the result is
-        // timing dependent); keep such scripts below 32 entries so that no drain can get there
-        if self.short && self.ops.iter().filter(|o| matches!(o, Op::Append(..))).count() >= 32 {
-            return false;
-        }
         let mut live = vec![true];
         let mut join_held = true;
+        let mut fclosed = false;
         for op in &self.ops[1..] {
             match op {
                 Op::New(_) => return false,
@@ -163,6 +173,18 @@ impl Case {
                     }
                     join_held = false;
                 }
+                Op::Fclose => {
+                    if fclosed {
+                        return false;
+                    }
+                    fclosed = true;
+                }
+                Op::Fopen => {
+                    if !fclosed {
+                        return false;
+                    }
+                    fclosed = false;
+                }
             }
         }
         true
@@ -172,11 +194,14 @@ impl Case {
     fn finished(mut self) -> Case {
         let mut live = vec![true];
         let mut join_held = true;
+        let mut fclosed = false;
         for op in &self.ops[1..] {
             match op {
                 Op::Clone(_) => live.push(true),
                 Op::Drop(h) => live[*h] = false,
                 Op::Forget | Op::DropJoin => join_held = false,
+                Op::Fclose => fclosed = true,
+                Op::Fopen => fclosed = false,
                 _ => {}
             }
         }
@@ -184,10 +209,13 @@ impl Case {
             // already finished? (gate:1000 present after the last append, no join, no handles)
             let last_append = self.ops.iter().rposition(|o| matches!(o, Op::Append(..)));
             let big_gate = self.ops.iter().rposition(|o| matches!(o, Op::Gate(k) if *k >= 1000));
-            !join_held && !live.iter().any(|l| *l) && big_gate.is_some() && big_gate >= last_append
+            !fclosed && !join_held && !live.iter().any(|l| *l) && big_gate.is_some() && big_gate >= last_append
         };
         if tail_ok {
             return self;
+        }
+        if fclosed {
+            self.ops.push(Op::Fopen);
         }
         self.ops.push(Op::Gate(1000));
         if join_held {
@@ -214,30 +242,40 @@ struct Profile {
     short_pct: u64,
     err_pct: u64,
     max_len: u64,
+    /// weight of toggling the flush gate
+    w_fgate: u64,
+    /// share of scripts with a 1 ns shutdown_timeout
+    tiny_pct: u64,
+    /// share of directed scenario scripts (see `gen_directed`)
+    directed_pct: u64,
 }
 
 fn profile(property: &str) -> Profile {
     match property {
-        "C09" => Profile { caps: &[1, 2, 3, 5, 10], w_append: 60, w_gate: 18, w_flush: 6, w_clone: 6, w_drop: 3, w_join: 3, short_pct: 10, err_pct: 10, max_len: 30 },
-        "C01" => Profile { caps: &[1, 2, 4, 16, 64], w_append: 45, w_gate: 25, w_flush: 10, w_clone: 8, w_drop: 4, w_join: 2, short_pct: 15, err_pct: 45, max_len: 25 },
-        "C05" => Profile { caps: &[1, 2, 3, 8], w_append: 35, w_gate: 18, w_flush: 8, w_clone: 12, w_drop: 12, w_join: 12, short_pct: 55, err_pct: 15, max_len: 22 },
-        _ => Profile { caps: &[1, 2, 3, 5, 33], w_append: 35, w_gate: 25, w_flush: 28, w_clone: 4, w_drop: 2, w_join: 3, short_pct: 15, err_pct: 15, max_len: 25 },
+        "C09" => Profile { caps: &[1, 2, 3, 5, 10], w_append: 60, w_gate: 18, w_flush: 6, w_clone: 6, w_drop: 3, w_join: 3, short_pct: 10, err_pct: 10, max_len: 30, w_fgate: 3, tiny_pct: 5, directed_pct: 10 },
+        "C01" => Profile { caps: &[1, 2, 4, 16, 64], w_append: 45, w_gate: 25, w_flush: 10, w_clone: 8, w_drop: 4, w_join: 2, short_pct: 15, err_pct: 45, max_len: 25, w_fgate: 5, tiny_pct: 5, directed_pct: 20 },
+        "C05" => Profile { caps: &[1, 2, 3, 8, 64], w_append: 35, w_gate: 18, w_flush: 8, w_clone: 12, w_drop: 12, w_join: 12, short_pct: 55, err_pct: 15, max_len: 22, w_fgate: 8, tiny_pct: 25, directed_pct: 30 },
+        _ => Profile { caps: &[1, 2, 3, 5, 33], w_append: 35, w_gate: 25, w_flush: 28, w_clone: 4, w_drop: 2, w_join: 3, short_pct: 15, err_pct: 15, max_len: 25, w_fgate: 8, tiny_pct: 5, directed_pct: 30 },
     }
 }
 
 fn gen_case(rng: &mut Rng, p: &Profile) -> Case {
+    if rng.below(100) < p.directed_pct {
+        return gen_directed(rng);
+    }
     let short = rng.below(100) < p.short_pct;
+    let tiny = rng.below(100) < p.tiny_pct;
+    let mut fclosed = false;
     let cap = *rng.pick(p.caps);
     let mut ops = vec![Op::New(cap)];
     let mut live = vec![true];
     let mut join_held = true;
     let n = rng.range(3, p.max_len);
-    let mut n_appends = 0usize;
     // sometimes start with an open gate (the writer is not stalled at all)
     if rng.chance(1, 5) {
         ops.push(Op::Gate(rng.range(1, 40) as usize));
     }
-    let total = p.w_append + p.w_gate + p.w_flush + p.w_clone + p.w_drop + p.w_join;
+    let total = p.w_append + p.w_gate + p.w_flush + p.w_clone + p.w_drop + p.w_join + p.w_fgate;
     for _ in 0..n {
         let lives: Vec<usize> = live.iter().enumerate().filter(|(_, l)| **l).map(|(i, _)| i).collect();
         let mut x = rng.below(total);
@@ -260,13 +298,16 @@ fn gen_case(rng: &mut Rng, p: &Profile) -> Case {
                 Res::Ok
             };
             // bursts: fill the ring beyond its capacity now and then
-            let burst = if rng.chance(1, 6) { rng.range(1, cap as u64 + 2) } else { 1 };
+            // and, with a tiny shutdown timeout, bursts around the 32-entry clock check of the drain loop
+            let burst = if tiny && rng.chance(1, 4) {
+                *rng.pick(&[31u64, 32, 33, 64])
+            } else if rng.chance(1, 6) {
+                rng.range(1, cap as u64 + 2)
+            } else {
+                1
+            };
             for _ in 0..burst {
-                if short && n_appends >= 31 {
-                    break; // see `valid`
-                }
                 ops.push(Op::Append(h, r));
-                n_appends += 1;
             }
         } else if pick(p.w_gate) {
             let k = match rng.below(4) {
@@ -291,6 +332,9 @@ fn gen_case(rng: &mut Rng, p: &Profile) -> Case {
                 ops.push(Op::Drop(h));
                 live[h] = false;
             }
+        } else if pick(p.w_fgate) {
+            ops.push(if fclosed { Op::Fopen } else { Op::Fclose });
+            fclosed = !fclosed;
         } else if join_held {
             if short && rng.chance(1, 2) {
                 ops.push(Op::Forget);
@@ -300,7 +344,172 @@ fn gen_case(rng: &mut Rng, p: &Profile) -> Case {
             join_held = false;
         }
     }
-    Case { short, ops }.finished()
+    Case { short, tiny, ops }.finished()
+}
+
+/// Directed scenario scripts: the writer is parked at a chosen program point with the flush gate
+/// (it sits inside its periodic / shutdown `stream.flush()`), then the interesting things happen:
+///  A. no-appenders exit with a late append: the last handle appends and is dropped while the writer is
+///     between its last drain pass and the `Arc::get_mut` test (join handle forgotten or still held);
+///  B. flush requests pending (in the channel) when the writer notices shutdown, with entries
+///     appended before them still unwritten; the gate is then opened step by step;
+///  E. the writer held inside the flush of `handle_waiting_wakers`, appends + drop(join) in that window;
+///  D. `shutdown_timeout` expiring inside the final drain at 31 / 32 / 33 / 64 pending entries
+///     (join-handle, forgotten-handle and last-handle-dropped shutdowns).
+fn gen_directed(rng: &mut Rng) -> Case {
+    let res = |rng: &mut Rng| match rng.below(6) {
+        0 => Res::Validation,
+        1 => Res::Io,
+        _ => Res::Ok,
+    };
+    let mut ops;
+    let mut live = vec![true];
+    let short;
+    let mut tiny = false;
+    // how the shutdown starts: 0 = drop(join), 1 = forget + last handle dropped, 2 = last handle dropped, join held
+    let how = rng.below(3);
+    match rng.below(4) {
+        3 => {
+            // E: the writer is held inside the flush of `handle_waiting_wakers` (a request completes on a
+            // drained queue); entries are appended and the shutdown begins in that window
+            short = false;
+            let cap = *rng.pick(&[2usize, 4, 64]);
+            ops = vec![Op::New(cap)];
+            if rng.chance(1, 2) {
+                ops.push(Op::Gate(1000));
+            }
+            ops.push(Op::Fclose);
+            ops.push(Op::Flush);
+            for _ in 0..rng.range(1, 3) {
+                ops.push(Op::Append(0, res(rng)));
+            }
+            if rng.chance(1, 3) {
+                ops.push(Op::Flush);
+            }
+            ops.push(Op::DropJoin);
+            ops.push(Op::Fopen);
+            for _ in 0..rng.below(3) {
+                ops.push(Op::Gate(1));
+            }
+        }
+        0 => {
+            // A
+            short = true;
+            let cap = *rng.pick(&[1usize, 2, 4, 16]);
+            ops = vec![Op::New(cap)];
+            if rng.chance(1, 2) {
+                ops.push(Op::Clone(0));
+                live.push(true);
+            }
+            if how != 2 {
+                ops.push(Op::Forget);
+            }
+            if rng.chance(1, 2) {
+                ops.push(Op::Append(0, res(rng)));
+                ops.push(Op::Gate(1));
+            }
+            if rng.chance(1, 3) {
+                ops.push(Op::Gate(rng.range(1, 5) as usize));
+            }
+            ops.push(Op::Fclose);
+            let last = live.len() - 1;
+            if live.len() == 2 && rng.chance(1, 2) {
+                ops.push(Op::Drop(0));
+                live[0] = false;
+            }
+            for _ in 0..rng.range(1, cap as u64 + 1) {
+                ops.push(Op::Append(last, res(rng)));
+            }
+            for h in 0..live.len() {
+                if live[h] {
+                    ops.push(Op::Drop(h));
+                }
+            }
+            ops.push(Op::Fopen);
+            for _ in 0..rng.below(3) {
+                ops.push(Op::Gate(1));
+            }
+        }
+        1 => {
+            // B
+            short = rng.chance(2, 3);
+            let cap = *rng.pick(&[2usize, 4, 8, 40]);
+            ops = vec![Op::New(cap)];
+            if short {
+                if how == 1 {
+                    ops.push(Op::Forget);
+                }
+                ops.push(Op::Fclose);
+                for _ in 0..rng.range(1, cap as u64) {
+                    ops.push(Op::Append(0, res(rng)));
+                }
+                ops.push(Op::Flush);
+                if rng.chance(1, 3) {
+                    ops.push(Op::Append(0, res(rng)));
+                    ops.push(Op::Flush);
+                }
+                if how == 0 {
+                    ops.push(Op::DropJoin);
+                } else {
+                    ops.push(Op::Drop(0));
+                }
+                ops.push(Op::Fopen);
+            } else {
+                // quiet interval: the writer holds the first entry inside `next`, the request waits in
+                // the channel, the join handle goes
+                for _ in 0..rng.range(1, cap as u64) {
+                    ops.push(Op::Append(0, res(rng)));
+                }
+                ops.push(Op::Flush);
+                if rng.chance(1, 2) {
+                    ops.push(Op::Fclose);
+                }
+                ops.push(Op::DropJoin);
+            }
+            for _ in 0..rng.range(1, 4) {
+                ops.push(Op::Gate(rng.range(1, 2) as usize));
+            }
+        }
+        _ => {
+            // D
+            short = rng.chance(2, 3);
+            tiny = true;
+            let pending = *rng.pick(&[31usize, 32, 33, 64, 64, 32]);
+            let cap = *rng.pick(&[64usize, 64, 100, 32]);
+            ops = vec![Op::New(cap)];
+            if rng.chance(1, 3) {
+                ops.push(Op::Gate(1000));
+            }
+            if short {
+                if how == 1 {
+                    ops.push(Op::Forget);
+                }
+                ops.push(Op::Fclose);
+                for _ in 0..pending {
+                    ops.push(Op::Append(0, Res::Ok));
+                }
+                if how == 0 {
+                    ops.push(Op::DropJoin);
+                } else {
+                    ops.push(Op::Drop(0));
+                }
+                ops.push(Op::Fopen);
+            } else {
+                ops.push(Op::Fclose);
+                ops.push(Op::DropJoin);
+                for _ in 0..pending {
+                    ops.push(Op::Append(0, Res::Ok));
+                }
+                ops.push(Op::Fopen);
+            }
+            if rng.chance(1, 2) {
+                ops.push(Op::Gate(rng.range(1, 40) as usize));
+            }
+        }
+    }
+    let c = Case { short, tiny, ops };
+    debug_assert!(c.valid(), "{}", c.encode());
+    c.finished()
 }
 
 // ------------------------------------------------------------------------------------------------
@@ -337,6 +546,7 @@ struct GuidedOutcome {
 
 struct Running {
     short: bool,
+    tiny: bool,
     built_gate: std::sync::Arc<GateShared>,
     counters: std::sync::Arc<Counters>,
     handles: Vec<Option<Handle>>,
@@ -371,17 +581,22 @@ impl Running {
         }
         let joined = self.dropper.as_ref().map(|d| d.has_returned()).unwrap_or(false);
         let ov = self.counters.overflows.load(Ordering::SeqCst);
-        let (calls, entered, closed, after_close) = {
+        let (calls, entered, closed, after_close, fblk) = {
             let g = self.built_gate.lock();
-            (g.calls.clone(), g.entered, g.closed, g.calls_after_close)
+            (g.calls.clone(), g.entered, g.closed, g.calls_after_close, g.fblocked)
         };
         // ---- oracle C04 (flush barrier), at the first observation of a completed future
         for i in newly {
             let f = &self.flushes[i];
-            if closed || f.requested_after_close {
-                continue; // the property speaks about a live queue; after shutdown completion is immediate
+            // the request was made on a live queue (stream not yet closed): also when the future completes
+            // during or at the end of shutdown, the entries appended before the request (and before the
+            // shutdown began) must have been written, and flushed, by then. Exceptions: requests made after
+            // the stream was closed complete at once; with a tiny shutdown_timeout the final drain may be cut.
+            if f.requested_after_close || (closed && self.tiny) {
+                continue;
             }
-            let must: Vec<u64> = self.appends[..f.appended_before].iter().filter(|a| !a.ref_lost).map(|a| a.id).collect();
+            let must: Vec<u64> =
+                self.appends[..f.appended_before].iter().filter(|a| !a.ref_lost && a.before_shutdown).map(|a| a.id).collect();
             let mut last_pos: Option<usize> = None;
             for id in &must {
                 match calls.iter().position(|c| matches!(c, Call::Next(x, _) if x == id)) {
@@ -414,14 +629,15 @@ impl Running {
         let fl = calls.iter().filter(|c| **c == Call::Flush).count();
         let done: Vec<String> = self.flushes.iter().enumerate().filter(|(_, f)| f.done).map(|(i, _)| i.to_string()).collect();
         format!(
-            "next={} ent={} fl={} ov={} done={} closed={} joined={}",
+            "next={} ent={} fl={} ov={} done={} closed={} joined={} fblk={}",
             if next.is_empty() { "-".to_string() } else { next.join(",") },
             entered,
             if self.short { "*".to_string() } else { fl.to_string() },
             ov,
             if done.is_empty() { "-".to_string() } else { done.join(",") },
             closed as u8,
-            joined as u8
+            joined as u8,
+            fblk
         )
     }
 
@@ -456,9 +672,16 @@ const SHORT_INTERVAL: Duration = Duration::from_millis(2);
 fn run_guided(case: &Case, kind: Kind, predicted: &[String], timeout: Duration) -> GuidedOutcome {
     let mut out = GuidedOutcome::default();
     let Some(Op::New(cap)) = case.ops.first().cloned() else { return out };
-    let built = build(kind, cap, if case.short { SHORT_INTERVAL } else { QUIET_INTERVAL }, true);
+    let built = build_with(
+        kind,
+        cap,
+        if case.short { SHORT_INTERVAL } else { QUIET_INTERVAL },
+        true,
+        if case.tiny { Some(Duration::from_nanos(1)) } else { None },
+    );
     let mut r = Running {
         short: case.short,
+        tiny: case.tiny,
         built_gate: built.gate.clone(),
         counters: built.counters.clone(),
         handles: vec![Some(built.handle)],
@@ -528,6 +751,8 @@ fn run_guided(case: &Case, kind: Kind, predicted: &[String], timeout: Duration) 
                     }
                 }
             }
+            Op::Fclose => r.built_gate.set_fclosed(true),
+            Op::Fopen => r.built_gate.set_fclosed(false),
             Op::Forget => {
                 if let Some(j) = r.join.take() {
                     j.forget();
@@ -536,19 +761,23 @@ fn run_guided(case: &Case, kind: Kind, predicted: &[String], timeout: Duration) 
             Op::DropJoin => {
                 r.shutdown_begun = true;
                 if let Some(j) = r.join.take() {
-                    r.dropper = Some(JoinDropper::start(j, Duration::from_secs(10)));
+                    r.dropper = Some(JoinDropper::start(j, Duration::from_secs(30)));
                 }
             }
         }
         let pred = predicted.get(k).map(|s| s.as_str()).unwrap_or("<no prediction>");
-        let (o, ok) = r.wait_for(pred, timeout);
-        out.obs.push(o);
+        // after the first mismatch the rest of the script is still executed (with short waits) so that the
+        // oracles see the whole scenario; only the first mismatch is reported as the disagreement
+        let to = if out.timed_out_at.is_some() { Duration::from_millis(150) } else { timeout };
+        let (o, ok) = r.wait_for(pred, to);
+        if out.timed_out_at.is_none() {
+            out.obs.push(o);
+        }
         if r.oracle.is_some() {
             break;
         }
-        if !ok {
+        if !ok && out.timed_out_at.is_none() {
             out.timed_out_at = Some(k);
-            break;
         }
     }
     // ---- cleanup: open the gate, drop everything; drop(join) must return
@@ -556,9 +785,9 @@ fn run_guided(case: &Case, kind: Kind, predicted: &[String], timeout: Duration) 
     r.handles.clear();
     let all_dropped_forgotten = r.join.is_none() && r.dropper.is_none();
     if let Some(j) = r.join.take() {
-        r.dropper = Some(JoinDropper::start(j, Duration::from_secs(10)));
+        r.dropper = Some(JoinDropper::start(j, Duration::from_secs(30)));
     }
-    let cleanup_wait = if out.timed_out_at.is_some() { timeout } else { Duration::from_secs(10) };
+    let cleanup_wait = if out.timed_out_at.is_some() { timeout.min(Duration::from_secs(5)) } else { Duration::from_secs(30) };
     if let Some(d) = r.dropper.as_mut() {
         if !d.finish(cleanup_wait) {
             r.fail("queue:c05-join-hangs", "drop(join_handle) did not return although the stream accepts everything".into());
@@ -643,7 +872,7 @@ fn final_oracles(r: &mut Running) {
                 r.fail("queue:c09-not-oldest", format!("entry {} should have been displaced (capacity {}), but was written: a newer entry must have been lost instead", a.id, r.cap));
                 return;
             }
-            if !a.ref_lost && !delivered {
+            if !a.ref_lost && !delivered && !r.tiny {
                 r.fail(
                     if r.ref_overflow > 0 { "queue:c09-lost-without-cause" } else { "queue:c01-lost" },
                     format!("entry {} was appended before shutdown and fewer than {} newer entries were appended while it was queued, but it never reached the stream", a.id, r.cap),
@@ -825,19 +1054,22 @@ struct TraceCase {
     /// request, before the gate opens and the other threads start: the writer then drains a backlog
     /// past its deadline, which exercises the HitDeadline / entries_before_wake countdown (C04)
     backlog: usize,
+    /// number of flusher threads (each makes `flushes` requests, one after the other): with more than
+    /// one, requests overlap and can be collected while earlier ones are still counting down
+    flushers: usize,
     seed: u64,
 }
 
 impl TraceCase {
     fn encode(&self) -> String {
         format!(
-            "trace {} {} {} {} {} {} {} {} {} {} {}",
-            self.kind.name(), self.cap, self.producers, self.per, self.interval_us, self.flushes, self.err_pct, self.slow_us, self.mid as u8, self.backlog, self.seed
+            "trace {} {} {} {} {} {} {} {} {} {} {} {}",
+            self.kind.name(), self.cap, self.producers, self.per, self.interval_us, self.flushes, self.err_pct, self.slow_us, self.mid as u8, self.backlog, self.flushers, self.seed
         )
     }
     fn decode(l: &str) -> Option<TraceCase> {
         let w: Vec<&str> = l.split_whitespace().collect();
-        if w.len() != 12 || w[0] != "trace" {
+        if (w.len() != 12 && w.len() != 13) || w[0] != "trace" {
             return None;
         }
         Some(TraceCase {
@@ -855,7 +1087,8 @@ impl TraceCase {
             slow_us: w[8].parse().ok()?,
             mid: w[9] == "1",
             backlog: w[10].parse().ok()?,
-            seed: w[11].parse().ok()?,
+            flushers: if w.len() == 13 { w[11].parse().ok()? } else { 1 },
+            seed: w[w.len() - 1].parse().ok()?,
         })
     }
 }
@@ -867,16 +1100,33 @@ fn gen_trace(rng: &mut Rng, prop: &str) -> TraceCase {
     let interval_us = *rng.pick(&[1u64, 50, 1000, 5000, 50_000_000]);
     let seed = rng.next_u64() >> 16;
     match prop {
-        "C09" => TraceCase { kind, cap: *rng.pick(&[1usize, 2, 3, 5, 10]), producers, per, interval_us, flushes: rng.below(3) as usize, err_pct: 10, slow_us: *rng.pick(&[0u64, 5, 30]), mid: false, backlog: 0, seed },
-        "C05" => TraceCase { kind, cap: *rng.pick(&[2usize, 8, 4096]), producers, per, interval_us, flushes: rng.below(2) as usize, err_pct: 10, slow_us: *rng.pick(&[0u64, 5]), mid: rng.chance(2, 3), backlog: 0, seed },
+        "C09" => TraceCase { kind, cap: *rng.pick(&[1usize, 2, 3, 5, 10]), producers, per, interval_us, flushes: rng.below(3) as usize, err_pct: 10, slow_us: *rng.pick(&[0u64, 5, 30]), mid: false, backlog: 0, flushers: 1, seed },
+        "C05" => TraceCase { kind, cap: *rng.pick(&[2usize, 8, 4096]), producers, per, interval_us, flushes: rng.below(2) as usize, err_pct: 10, slow_us: *rng.pick(&[0u64, 5]), mid: rng.chance(2, 3), backlog: 0, flushers: 1, seed },
         "C04" => {
             if rng.chance(1, 3) {
                 backlog_trace(rng)
+            } else if rng.chance(1, 5) {
+                saturation_trace(rng)
             } else {
-                TraceCase { kind, cap: *rng.pick(&[1usize, 2, 5, 33, 4096]), producers, per, interval_us: *rng.pick(&[1u64, 1, 50, 5000, 50_000_000]), flushes: rng.range(2, 6) as usize, err_pct: 10, slow_us: *rng.pick(&[0u64, 0, 10]), mid: false, backlog: 0, seed }
+                let mid = rng.chance(1, 4);
+                TraceCase {
+                    kind,
+                    cap: if mid { *rng.pick(&[33usize, 4096]) } else { *rng.pick(&[1usize, 2, 5, 33, 4096]) },
+                    producers,
+                    per,
+                    interval_us: *rng.pick(&[1u64, 1, 50, 5000, 50_000_000]),
+                    flushes: rng.range(2, 6) as usize,
+                    err_pct: 10,
+                    slow_us: if mid { *rng.pick(&[10u64, 30]) } else { *rng.pick(&[0u64, 0, 10]) },
+                    // shutdown while flush requests are pending and a backlog is unwritten
+                    mid,
+                    backlog: 0,
+                    flushers: rng.range(1, 2) as usize,
+                    seed,
+                }
             }
         }
-        _ => TraceCase { kind, cap: 4096, producers, per, interval_us, flushes: rng.below(4) as usize, err_pct: 35, slow_us: 0, mid: false, backlog: 0, seed },
+        _ => TraceCase { kind, cap: 4096, producers, per, interval_us, flushes: rng.below(4) as usize, err_pct: 35, slow_us: 0, mid: false, backlog: 0, flushers: 1, seed },
     }
 }
 
@@ -893,6 +1143,27 @@ fn backlog_trace(rng: &mut Rng) -> TraceCase {
         slow_us: *rng.pick(&[0u64, 2]),
         mid: false,
         backlog: rng.range(40, 300) as usize,
+        flushers: rng.range(1, 2) as usize,
+        seed: rng.next_u64() >> 16,
+    }
+}
+
+/// a trace in which several producers keep a small ring full in front of a slow stream while many flush
+/// requests arrive: the writer's drain passes end with HitDeadline again and again, so requests are
+/// collected while earlier ones are still counting down
+fn saturation_trace(rng: &mut Rng) -> TraceCase {
+    TraceCase {
+        kind: if rng.chance(1, 2) { Kind::Typed } else { Kind::Boxed },
+        cap: *rng.pick(&[33usize, 40, 64, 100]),
+        producers: rng.range(3, 8) as usize,
+        per: rng.range(60, 150) as usize,
+        interval_us: 1,
+        flushes: rng.range(4, 8) as usize,
+        err_pct: 5,
+        slow_us: *rng.pick(&[15u64, 30, 50]),
+        mid: false,
+        backlog: if rng.chance(1, 2) { rng.range(40, 120) as usize } else { 0 },
+        flushers: rng.range(2, 4) as usize,
         seed: rng.next_u64() >> 16,
     }
 }
@@ -962,9 +1233,10 @@ fn run_trace(tc: &TraceCase) -> TraceOutcome {
     let built = build(tc.kind, tc.cap, Duration::from_micros(tc.interval_us), tc.backlog > 0);
     let gate = built.gate.clone();
     gate.slow_us.store(tc.slow_us, Ordering::Relaxed);
-    let start = Arc::new(std::sync::Barrier::new(tc.producers + 2));
+    let n_flushers = tc.flushers.max(1);
+    let start = Arc::new(std::sync::Barrier::new(tc.producers + n_flushers + 1));
     let mut rng = Rng::new(tc.seed);
-    let fut_timeout = if TRACE_FAILURES.load(Ordering::SeqCst) > 0 { Duration::from_secs(3) } else { Duration::from_secs(10) };
+    let fut_timeout = if TRACE_FAILURES.load(Ordering::SeqCst) > 0 { Duration::from_secs(3) } else { Duration::from_secs(20) };
     // backlog phase: the stream is shut, an extra producer fills the ring, a flush is requested
     let mut backlog_rec: Vec<(u64, Res, u64, u64)> = vec![];
     let mut backlog_flush: Option<(u64, Pin<Box<FlushWait>>)> = None;
@@ -1007,13 +1279,14 @@ fn run_trace(tc: &TraceCase) -> TraceOutcome {
             rec
         }));
     }
-    let flusher = {
+    let mut flusher_threads = vec![];
+    for fi in 0..n_flushers {
         let h = built.handle.clone();
         let g = gate.clone();
         let st = start.clone();
-        let mut r = rng.fork(999);
+        let mut r = rng.fork(999 + fi as u64);
         let n = tc.flushes;
-        std::thread::spawn(move || {
+        flusher_threads.push(std::thread::spawn(move || {
             let mut rec = vec![];
             st.wait();
             for _ in 0..n {
@@ -1025,8 +1298,8 @@ fn run_trace(tc: &TraceCase) -> TraceOutcome {
                 rec.push((inv, done, ok));
             }
             rec
-        })
-    };
+        }));
+    }
     let main_handle = built.handle;
     let mut join = Some(built.join);
     start.wait();
@@ -1036,7 +1309,7 @@ fn run_trace(tc: &TraceCase) -> TraceOutcome {
     if tc.mid {
         std::thread::sleep(Duration::from_micros(rng.below(400)));
         begin_tick = gate.tick();
-        dropper = Some(JoinDropper::start(join.take().unwrap(), Duration::from_secs(10)));
+        dropper = Some(JoinDropper::start(join.take().unwrap(), Duration::from_secs(30)));
     }
     let mut appended: Vec<(u64, Res, u64, u64)> = vec![];
     let mut per_prod: Vec<Vec<u64>> = vec![];
@@ -1045,7 +1318,10 @@ fn run_trace(tc: &TraceCase) -> TraceOutcome {
         per_prod.push(rec.iter().map(|r| r.0).collect());
         appended.extend(rec);
     }
-    let mut flush_rec = flusher.join().unwrap_or_default();
+    let mut flush_rec: Vec<(u64, u64, bool)> = vec![];
+    for t in flusher_threads {
+        flush_rec.extend(t.join().unwrap_or_default());
+    }
     if let Some((inv, fut)) = backlog_flush.take() {
         let ok = block_on_timeout(fut, fut_timeout);
         let done = gate.tick();
@@ -1072,8 +1348,8 @@ fn run_trace(tc: &TraceCase) -> TraceOutcome {
             if d + ov >= total {
                 break;
             }
-            if t0.elapsed() > Duration::from_secs(10) {
-                fail(&mut out, "queue:trace-stuck", format!("{} of {total} appended entries are neither written nor counted as overflow 10 s after the last append (lost wake-up?)", total - d - ov));
+            if t0.elapsed() > fut_timeout {
+                fail(&mut out, "queue:trace-stuck", format!("{} of {total} appended entries are neither written nor counted as overflow {} s after the last append (lost wake-up?)", total - d - ov, fut_timeout.as_secs()));
                 break;
             }
             std::thread::sleep(Duration::from_micros(200));
@@ -1081,7 +1357,7 @@ fn run_trace(tc: &TraceCase) -> TraceOutcome {
     }
     drop(main_handle);
     if dropper.is_none() {
-        dropper = Some(JoinDropper::start(join.take().unwrap(), Duration::from_secs(10)));
+        dropper = Some(JoinDropper::start(join.take().unwrap(), Duration::from_secs(30)));
     }
     let mut d = dropper.unwrap();
     if !d.finish(Duration::from_secs(40)) {
@@ -1167,9 +1443,11 @@ fn run_trace(tc: &TraceCase) -> TraceOutcome {
             continue;
         }
         out.flushes_done += 1;
-        if *done > begin_tick {
-            continue; // completed while/after shutting down: the barrier is promised for a live queue only
+        if *inv > begin_tick {
+            continue; // requested after the shutdown had begun: the barrier is promised for a live queue only
         }
+        // (a request made before drop(join_handle) began is judged also when it completes during or at
+        // the end of the shutdown: the default 30 s shutdown_timeout never fires here)
         let before: Vec<u64> = appended.iter().filter(|a| a.3 < *inv).map(|a| a.0).collect();
         let mut last = 0u64;
         for id in &before {
@@ -1232,19 +1510,32 @@ fn run_guided_batch(cases: &[Case], preds: &[String], threads: usize, timeout: D
     use std::sync::atomic::AtomicUsize;
     let next = AtomicUsize::new(0);
     let bad = AtomicUsize::new(0);
+    let oracle_found = AtomicUsize::new(0);
     let results: std::sync::Mutex<Vec<(usize, GuidedResult)>> = std::sync::Mutex::new(vec![]);
     std::thread::scope(|s| {
         for _ in 0..threads {
             s.spawn(|| {
                 loop {
                     let i = next.fetch_add(1, Ordering::SeqCst);
-                    if i >= cases.len() || bad.load(Ordering::SeqCst) >= stop_after_bad {
+                    let nbad = bad.load(Ordering::SeqCst);
+                    // once something is wrong: keep looking for an oracle failure (a concrete failing input),
+                    // but with short waits, and not for long
+                    if i >= cases.len() || nbad >= stop_after_bad * 10 || (nbad >= stop_after_bad && oracle_found.load(Ordering::SeqCst) > 0) {
                         break;
                     }
                     let pred = split_obs(&preds[i]);
-                    let to = if bad.load(Ordering::SeqCst) >= 2 { timeout.min(Duration::from_secs(2)) } else { timeout };
+                    let to = if nbad >= 8 {
+                        Duration::from_millis(300)
+                    } else if nbad >= 2 {
+                        timeout.min(Duration::from_secs(1))
+                    } else {
+                        timeout
+                    };
                     let typed = run_guided(&cases[i], Kind::Typed, &pred, to);
                     let boxed = run_guided(&cases[i], Kind::Boxed, &pred, to);
+                    if typed.oracle.is_some() || boxed.oracle.is_some() {
+                        oracle_found.fetch_add(1, Ordering::SeqCst);
+                    }
                     if typed.oracle.is_some() || boxed.oracle.is_some() || typed.timed_out_at.is_some() || boxed.timed_out_at.is_some() {
                         bad.fetch_add(1, Ordering::SeqCst);
                     }
@@ -1268,13 +1559,13 @@ fn shrink_guided(args: &Args, case: &Case, kind: Kind, fails: impl Fn(&GuidedOut
         }
         let mut ops = vec![case.ops[0].clone()];
         ops.extend_from_slice(cand);
-        let c = Case { short: case.short, ops };
+        let c = Case { short: case.short, tiny: case.tiny, ops };
         if !c.valid() {
             return false;
         }
         let c = c.finished();
         let Some(p) = predict(args, &[c.encode()]) else { return false };
-        if p[0] == "bad-op" {
+        if p[0] == "bad-op" || p[0] == "clock-dependent" {
             return false;
         }
         tried += 1;
@@ -1284,7 +1575,7 @@ fn shrink_guided(args: &Args, case: &Case, kind: Kind, fails: impl Fn(&GuidedOut
     });
     let mut all = vec![case.ops[0].clone()];
     all.extend(ops);
-    Case { short: case.short, ops: all }.finished()
+    Case { short: case.short, tiny: case.tiny, ops: all }.finished()
 }
 
 fn first_diff(obs: &[String], pred: &[String]) -> Option<usize> {
@@ -1361,8 +1652,26 @@ fn main() {
         return;
     };
 
+    // scripts whose outcome depends on the wall clock (the model says where) are not run
+    let mut kept_cases = vec![];
+    let mut kept_preds = vec![];
+    for (c, pr) in cases.into_iter().zip(preds.into_iter()) {
+        if pr == "clock-dependent" {
+            rep.bump("skipped:clock-dependent script");
+        } else if pr == "bad-op" {
+            rep.notes.push(format!("model rejected the script: {}", c.encode()));
+            rep.disagreement("queue/script-wellformedness", &c.encode(), "accepted by the harness", "bad-op");
+        } else {
+            kept_cases.push(c);
+            kept_preds.push(pr);
+        }
+    }
+    let (cases, preds) = (kept_cases, kept_preds);
     let threads = if args.thorough() { 12 } else { 3 };
-    let results = run_guided_batch(&cases, &preds, threads, Duration::from_secs(10), 3);
+    let t_phase = Instant::now();
+    let results = run_guided_batch(&cases, &preds, threads, Duration::from_secs(20), 3);
+    rep.notes.push(format!("guided batch: {} of {} scripts run in {:.1} s", results.len(), cases.len(), t_phase.elapsed().as_secs_f64()));
+    let t_phase = Instant::now();
     let mut max_append_us = 0u128;
     let mut reported_keys: BTreeSet<String> = BTreeSet::new();
     for gr in &results {
@@ -1411,6 +1720,20 @@ fn main() {
         }
         if gr.case.ops.iter().any(|o| *o == Op::Forget) {
             rep.bump("hit:forget");
+        }
+        if gr.case.tiny {
+            rep.bump("mode:tiny shutdown_timeout");
+        }
+        if gr.pred.iter().any(|o| o.ends_with("fblk=1")) {
+            rep.bump("hit:writer held inside flush");
+        }
+        if gr.pred.iter().any(|o| o.ends_with("fblk=1") && !o.contains("done=- ")) || {
+            // a flush request pending while the writer is inside shutdown
+            let j = gr.case.ops.iter().position(|o| matches!(o, Op::DropJoin));
+            let f = gr.case.ops.iter().position(|o| *o == Op::Flush);
+            matches!((j, f), (Some(j), Some(f)) if f < j && gr.pred.get(j).map(|o| o.contains("done=- ")).unwrap_or(false))
+        } {
+            rep.bump("hit:flush pending at shutdown");
         }
         if errs > 0 {
             rep.bump("hit:error-results");
@@ -1461,6 +1784,8 @@ fn main() {
         rep.oracle_failure("queue:c09-append-blocks", "-", &format!("{max_append_us} us"), "an append took more than 2 s: appends must never block");
     }
 
+    rep.notes.push(format!("guided reporting/shrinking: {:.1} s", t_phase.elapsed().as_secs_f64()));
+    let t_phase = Instant::now();
     // ---- T-trace: real threads, perturbation at the hook points
     if !traces.is_empty() {
         install_perturbation(args.seed);
@@ -1536,6 +1861,8 @@ fn main() {
         }
     }
 
+    rep.notes.push(format!("traces: {:.1} s", t_phase.elapsed().as_secs_f64()));
+    let t_phase = Instant::now();
     // ---- waker state machine
     if !hww.is_empty() {
         let impl_out: Vec<String> = hww.iter().map(|l| catch(|| run_hww_impl(l)).ok().flatten().unwrap_or_else(|| "panic".into())).collect();
@@ -1585,6 +1912,8 @@ fn main() {
             None => rep.driver_available = false,
         }
     }
+    rep.notes.push(format!("hww: {:.1} s", t_phase.elapsed().as_secs_f64()));
+    let t_phase = Instant::now();
     // ---- targeted search when model and code disagree but no oracle has failed yet (oracle only)
     if rep.oracle_failures.is_empty() && !rep.disagreements.is_empty() && args.replay.is_none() {
         let mut srng = rng.fork(4242);
@@ -1596,7 +1925,7 @@ fn main() {
             install_perturbation(args.seed ^ 0x5ea4c4);
             let budget = if args.thorough() { 3000 } else { 1000 };
             for _ in 0..budget {
-                let tc = backlog_trace(&mut srng);
+                let tc = if srng.chance(1, 2) { backlog_trace(&mut srng) } else { saturation_trace(&mut srng) };
                 let o = run_trace(&tc);
                 n += 1;
                 if let Some((key, what)) = o.oracle {
@@ -1646,13 +1975,14 @@ fn main() {
                             break;
                         }
                     }
-                    if found.is_some() || bad > 40 {
+                    if found.is_some() || bad > 40 || t_phase.elapsed() > Duration::from_secs(120) {
                         break;
                     }
                 }
             }
         }
         rep.search_cases = n;
+        rep.notes.push(format!("search: {} cases in {:.1} s", n, t_phase.elapsed().as_secs_f64()));
         if let Some((key, case, imp, what)) = found {
             rep.search_found = true;
             rep.oracle_failure(&key, &case, &imp, &what);
